@@ -276,7 +276,9 @@ def r20d(ctx, rep, cr):
         defs = A.Defs(f)
         for k, c in enumerate(lp):
             n += 1
-            want = _val_sig(f, defs, c.args[0])
+            # the announced length is whichever argument is not the limit (argument order is the helper's business): every
+            # non-constant argument is tried as the value that must have been tested on the `<= limit` side
+            wants = [_val_sig(f, defs, a_) for a_ in c.args if a_[0] != 'k']
             found = None
             for (a, s_) in A.must_pass_edges(f, c.bb):
                 l = lib.switch_local(f, a)
@@ -292,7 +294,7 @@ def r20d(ctx, rep, cr):
                     ls = A.backward_slice(f, [rv[li]], defs)
                     if not any(x.endswith('LengthDelimitedCodec.max_frame_length') for x in ls.fields):
                         continue
-                    if _val_sig(f, defs, rv[vi]) == want and implies_le(rv[1], vi == 2, taken_true):
+                    if _val_sig(f, defs, rv[vi]) in wants and implies_le(rv[1], vi == 2, taken_true):
                         found = (a, rv[1])
             if found:
                 rep.holds('R20d', f, 'announced length#%d' % k, 'the announced value itself is tested (%s at bb%d)' % (found[1], found[0]))
@@ -350,6 +352,58 @@ def r20f(ctx, rep, cr):
     rep.floor('R20f', 'decoder-side size policies', n, 1)
 
 
+def r20g(ctx, rep):
+    rep.rule('R20g', 'the sparse encoding drops only what the decoder puts back: decompress fills every position that is not listed with 0.0, so '
+                     'in tensor_compress::format::compress_dense_as_sparse (the lossless dense→sparse encoder) every test on a '
+                     'component, in the function or in a closure it passes on, is ==/!= against the constant 0.0 — no magnitude test (abs, <, >) '
+                     'and no tolerance constant. "Effectively zero" is the right test for choosing a format (should_use_sparse*), not for '
+                     'choosing what to keep: a component of 5e-7 would come back as 0')
+    cr = ctx.crate('tensor_compress')
+    f = rep.require_fn('R20g', cr, 'tensor_compress::format::compress_dense_as_sparse')
+    if f is None:
+        return
+    bodies = A.with_closures(cr.fns, f.name)
+    n = 0
+    CMP = ('Eq', 'Ne', 'Lt', 'Le', 'Gt', 'Ge')
+
+    def is_float(h, op):
+        if op[0] == 'k':
+            return bool(re.search(r'f32|f64', str(op[1])))
+        return not op[1][1] and h.locals[op[1][0]] in ('f32', 'f64')
+
+    def zero_const(op):
+        return op[0] == 'k' and re.search(r'(^|[^0-9.])-?0(\.0*)?(e[+-]?0+)?_?f(32|64)', str(op[1])) is not None
+
+    for h in bodies:
+        bad = []
+        cmps = 0
+        for b_ in h.bbs:
+            if b_['cleanup']:
+                continue
+            for st in b_['s']:
+                rv = st[1]
+                if rv[0] == 'bin' and rv[1] in CMP and (is_float(h, rv[2]) or is_float(h, rv[3])):
+                    cmps += 1
+                    if rv[1] not in ('Eq', 'Ne'):
+                        bad.append('%s on a component' % rv[1])
+                    elif not (zero_const(rv[2]) or zero_const(rv[3])):
+                        bad.append('comparison with something other than the constant 0.0')
+            t = b_['t']
+            if t[0] == 'call' and re.search(r'f(32|64)>?::(abs|signum|is_normal|is_subnormal|clamp|max|min)$', t[2]):
+                bad.append(lib.short(t[2]))
+        if not cmps and not bad:
+            continue
+        n += cmps
+        rep.analysed(h)
+        if bad:
+            rep.violation('R20g', f, 'lossy-zero-test', h.loc(),
+                          'the sparse encoder decides which components to keep with %s: components that are not 0.0 are dropped and decode '
+                          'as 0.0' % ', '.join(sorted(set(bad))))
+        else:
+            rep.holds('R20g', f, 'component test in %s' % h.name.split('::')[-1], 'exact comparison with 0.0')
+    rep.floor('R20g', 'component filters in the sparse encoder', n, 1)
+
+
 def run(ctx, rep):
     cr = ctx.crate('tensor_chain')
     r20a(ctx, rep, cr)
@@ -358,3 +412,4 @@ def run(ctx, rep):
     r20d(ctx, rep, cr)
     r20e(ctx, rep, cr)
     r20f(ctx, rep, cr)
+    r20g(ctx, rep)
